@@ -285,7 +285,7 @@ func evalTerms(tmpl string, o *Obligation) map[string]string {
 		kind, term := spec[:i], spec[i+1:]
 		terms := []string{term}
 		if kind == "str" {
-			terms = append(terms, "(str.len "+term+")")
+			terms = append(terms, "(slen "+term+")")
 		}
 		vs := evalOne(terms)
 		if vs == nil {
